@@ -77,6 +77,11 @@ type verSys struct {
 	bucket  string
 	lastOp  string
 	unknown string
+	// the status history is hidden state of the backend (what a version "is" may be
+	// decided when the status changes): with trackStatus the number of status changes
+	// is part of the state key, so that histories which differ only in it are explored
+	trackStatus bool
+	changes     int
 }
 
 func newVerSys(prop string, keys, bodies []string, maxEnt int) (*verSys, error) {
@@ -92,7 +97,11 @@ func newVerSys(prop string, keys, bodies []string, maxEnt int) (*verSys, error) 
 
 func (s *verSys) Close() { s.w.Close() }
 func (s *verSys) Key() string {
-	return drv.KeyOf(s.w.Snapshot(drv.SnapOpts{Versions: true}) + "MODEL " + s.renderModel())
+	extra := ""
+	if s.trackStatus {
+		extra = fmt.Sprintf(" status-changes=%d", min(s.changes, 4))
+	}
+	return drv.KeyOf(s.w.Snapshot(drv.SnapOpts{Versions: true}) + "MODEL " + s.renderModel() + extra)
 }
 
 func (s *verSys) Ops() []engine.Op {
@@ -343,6 +352,9 @@ func (s *verSys) apply(op engine.Op) (string, *engine.Violation) {
 		r := s.w.Do(drv.Req{Method: "PUT", Path: "/" + s.bucket, Query: "versioning", Body: []byte("<VersioningConfiguration><Status>" + st + "</Status></VersioningConfiguration>")})
 		if r.Status != 200 || r.Panic != "" {
 			return respSig(r), s.verBad("setver", "status", "-", "set-versioning %s answered %s", st, r.Short())
+		}
+		if s.m.Status != st {
+			s.changes++
 		}
 		s.m.SetVersioning(o.enable)
 		gv := s.w.Do(drv.Req{Method: "GET", Path: "/" + s.bucket, Query: "versioning"})
@@ -613,7 +625,7 @@ func runVer(c *engine.Ctx, prop string) {
 		depth = 6
 	}
 	name := prop + "/mem"
-	c.SpecBudget = c.Budget() / 3
+	c.SpecBudget = c.Budget() / 4
 	engine.RunSeq(c, engine.SeqSpec{Name: name, World: "mem", MaxDepth: depth,
 		New: func() (engine.Sys, error) { return newVerSys(prop, keys, bodies, maxEnt) }})
 	c.Bounds[name] = map[string]interface{}{"keys": keys, "bodies": bodies, "history_depth": depth, "max_entries_per_key": maxEnt}
@@ -622,6 +634,19 @@ func runVer(c *engine.Ctx, prop string) {
 	engine.RunSeq(c, engine.SeqSpec{Name: name1, World: "mem", MaxDepth: depth + 2,
 		New: func() (engine.Sys, error) { return newVerSys(prop, []string{"a"}, bodies, maxEnt+1) }})
 	c.Bounds[name1] = map[string]interface{}{"keys": []string{"a"}, "bodies": bodies, "history_depth": depth + 2, "max_entries_per_key": maxEnt + 1}
+	if prop == "C05" {
+		// ... and with the status history in the state key (suspended and re-enabled more than once)
+		names := prop + "/mem/1key+status-history"
+		engine.RunSeq(c, engine.SeqSpec{Name: names, World: "mem", MaxDepth: depth + 2,
+			New: func() (engine.Sys, error) {
+				s, err := newVerSys(prop, []string{"a"}, []string{"A"}, maxEnt)
+				if err == nil {
+					s.trackStatus = true
+				}
+				return s, err
+			}})
+		c.Bounds[names] = map[string]interface{}{"keys": []string{"a"}, "bodies": []string{"A"}, "history_depth": depth + 2, "max_entries_per_key": maxEnt, "state_key": "+ number of versioning status changes (capped at 4)"}
+	}
 	// keys that look like escapes: markers and version ids must round-trip as they are
 	richKeys := []string{"a b", "a%2Fb", "a+b"}
 	namer := prop + "/mem/rich-keys"
